@@ -9,6 +9,7 @@ import VivModel.Model.Components
   setup <probes> <attempts>       SimulationContext.setup(): interprets Viv.Gen.skeleton "setup"
   get <path>                      value of a leaf path (outermost layer that has it)
   set <path> <val>                configuration.update at the outermost layer
+  setl <layer> <path> <val>       configuration.update(…, layer=<layer>)
   del <key>                       del configuration.<key> (never refused: the library ignores freeze, F18)
   defs = - | path=val;path=val…   attempts = - | name=path=val;…   probes = - | path,path…
 -/
@@ -91,6 +92,8 @@ def step (s : Sim) : List String → Sim × String
   | ["get", p] => (s, match s.cfg.get p with | some v => "val " ++ v | none => "none")
   | ["set", p, v] =>
     fin s ((s.cfg.update outermost p v).map fun c => { s with cfg := c }) fun _ => "ok"
+  | ["setl", layer, p, v] =>
+    fin s ((s.cfg.update layer p v).map fun c => { s with cfg := c }) fun _ => "ok"
   | ["del", key] => ({ s with cfg := s.cfg.delete key }, "ok")
   | ["flatten", k, nodes] =>
     match parseForest k nodes with
